@@ -58,7 +58,7 @@ def rule_unused(repo, rid, modules, floor=5):
                      'excepted): an accepted option that is never read silently ignores the caller\'s value', floor=floor)
     seen_exempt = set()
     for m in modules:
-        for f in repo.module(m).functions.values():
+        for f in repo.functions_view(m):
             un = unread_params(f.node)
             if _is_setup_context(f):
                 un = []                                  # (ctx, inputs, output): signature fixed by torch.autograd.Function
